@@ -280,11 +280,19 @@ func buildQueries(prelude string, fv *FV, o *Obligation, depths []int) []string 
 	}
 	goal := o.Goal
 	var decls, extra []string
+	// facts about blocks that are not on a path to this obligation are dropped from every
+	// variant except the last (full) one
+	onPath := lines
+	if o.Expect == "unsat" {
+		onPath = onPathOnly(lines, o.Guard)
+		usingLines = onPathOnly(usingLines, o.Guard)
+	}
 	if o.Expect == "unsat" && !noInstantiate {
-		decls, extra, goal = augment(lines, o.Guard, o.Goal, fv.eng.intFuncs)
+		decls, extra, goal = augment(onPath, o.Guard, o.Goal, fv.eng.intFuncs)
 	}
 	// skolem declarations first, then the script, then the instances (which are ordinary hypotheses)
 	all := append(append(append([]string{}, decls...), lines...), extra...)
+	allOnPath := append(append(append([]string{}, decls...), onPath...), extra...)
 	assemble := func(ls []string) string {
 		var b strings.Builder
 		b.WriteString(prelude)
@@ -308,7 +316,7 @@ func buildQueries(prelude string, fv *FV, o *Obligation, depths []int) []string 
 	}
 	if o.Expect == "unsat" {
 		for _, d := range depths {
-			out = append(out, assemble(prune(all, nil, o.Guard, goal, d)))
+			out = append(out, assemble(prune(allOnPath, nil, o.Guard, goal, d)))
 		}
 	}
 	out = append(out, assemble(all))
